@@ -26,6 +26,9 @@ CHECKS = {
  'C07': dict(cat='model_checking', design='5/C07', technique='TLA+ reference decoders written from RFC 8949 / the MessagePack, UBJSON and BSON specifications; TLC enumerates byte strings and head/payload token sequences with predicted verdict and value, replayed through the real decoders',
    text='For each format TLC enumerates byte strings (all first bytes x representative later bytes; every strict prefix) and token sequences (every type code at every width with boundary arguments, reserved codes, indefinite forms, break codes, valid/invalid UTF-8) and the TLA+ reference decoder predicts well-formedness and the decoded value; the harness requires the same verdict and value from decode_X, reader+json_decoder, stream source and cursor.',
    note='Bounded input length (3-4 bytes / 3 tokens up to 27 bytes). Values without a documented jsoncons mapping are compared on the verdict only.'),
+ 'C06': dict(cat='model_checking', design='5/C06', technique='TLC-enumerated boundary values encoded/decoded by the real codecs; every recorded (value, bytes, decoded) execution validated by a TLC trace spec that decodes the bytes with the independent TLA+ reference decoder',
+   text='TLC enumerates data-model values at every integer width, float exactness, string/array/map length boundary plus the CBOR string-reference family; the harness records what the real encoders emit (DOM, streaming, pack_strings) and what the real decoder reads back; Trace_C06 accepts a line only if the TLA+ reference decoder reads the bytes completely to the documented image of the value (float widening, any NaN, unordered maps, resolved string references) and the library decode equals it.',
+   note='Formats validated: see evidence coverage.formats (CBOR first; MessagePack/UBJSON/BSON join when their reference decoders are integrated). Typed-array and semantic-tag round trips are not yet in the universe.'),
 }
 NA = {}
 
